@@ -279,6 +279,39 @@ def base_case(draw, tier, kinds=ALL_KINDS, with_lam=True, patterns=IMG_PATTERNS)
     return case
 
 
+@st.composite
+def long_base_case(draw, tier, with_lam=True):
+    """Thin images: one long extent (crossing the blocking sizes / FFT-friendly and -unfriendly lengths) against <= 3;
+    kernels small in the long direction, or as long as the image."""
+    Lg = draw(gen.long_dim(cap=129 if tier == "quick" else 300))
+    sh = draw(st.integers(1, 3))
+    H, W = (Lg, sh) if draw(st.booleans()) else (sh, Lg)
+    kl = draw(st.sampled_from([1, 2, 3, 4, 5, 8, Lg]))
+    ks = draw(kdim(sh))
+    kH, kW = (kl, ks) if H == Lg else (ks, kl)
+    rng = np.random.RandomState(draw(gen.seeds()))
+    Wt = rng.randint(0, 9, size=(kH, kW)).astype(float)
+    if draw(st.booleans()):
+        Wt = Wt * (rng.rand(kH, kW) < 0.5)
+    if not Wt.any():
+        Wt[kH // 2, kW // 2] = 1.0
+    kind = draw(st.sampled_from(["nonneg", "nonneg_raw", "delta_dominant"]))
+    if kind == "nonneg":
+        spec = {"kind": kind, "psf": Wt / Wt.sum()}
+    elif kind == "nonneg_raw":
+        spec = {"kind": kind, "psf": Wt / 16.0}
+    else:
+        eps = draw(st.sampled_from(EPSILONS))
+        P = eps * (Wt / Wt.sum())
+        P[kH // 2, kW // 2] += 1.0 - eps
+        spec = {"kind": kind, "psf": P, "eps": eps}
+    X, pat = draw(gen.long_qarray(H, W, draw(st.sampled_from(["generic", "int", "sparse"]))))
+    case = {"H": H, "W": W, "psf": spec, "X": X, "pattern": pat, "perm": [1, 2, 3, 0]}
+    if with_lam:
+        case["lam"] = draw(lam_pos())
+    return case
+
+
 # ----------------------------------------------------------------------------
 # shared pieces of the checks
 
@@ -797,6 +830,10 @@ PROPERTY = Property(
     clauses=[
         Clause("blur", check_blur, strategy=blur_cases, budget={"quick": 1600, "thorough": 20000}),
         Clause("restore_fft", check_restore_fft, strategy=restore_cases, budget={"quick": 1600, "thorough": 20000}),
+        Clause("blur_long_dimension", check_blur, strategy=lambda tier: long_base_case(tier, with_lam=False),
+               budget={"quick": 24, "thorough": 240}, shrink=False),
+        Clause("restore_fft_long_dimension", check_restore_fft, strategy=lambda tier: long_base_case(tier),
+               budget={"quick": 16, "thorough": 160}, shrink=False),
         Clause("restore_matrix", check_restore_matrix, strategy=matrix_cases, budget={"quick": 800, "thorough": 10000}),
         Clause("builders", check_builders, strategy=builder_cases, budget={"quick": 800, "thorough": 10000}),
         Clause("linearity", check_linearity, strategy=linearity_cases, budget={"quick": 800, "thorough": 10000}),
